@@ -302,16 +302,26 @@ def case_dimchange(case):
     d, d0, seed = cfg["dim"], case["dim_from"], case["seed"]
     fresh = make_model(cfg)
     kw = dict(dim=d0, var=cfg.get("var", 1.6), len_scale=cfg.get("len_scale", 2.0))
-    kw.update(cfg["opts"])
+    kw.update(case.get("opt_from") or cfg["opts"])
     m = getattr(gs, cfg["cls"])(**kw)
-    # warm every lazily built helper in the old dimension, then change the dimension in place
+    # warm every lazily built helper in the old setting, then change the model in place
     m.spectrum(np.array([0.3, 1.0]))
-    if d0 > 1 or True:
-        gs.field.generator.RandMeth(m, mode_no=8, seed=1)
-    m.dim = d
+    gs.field.generator.RandMeth(m, mode_no=8, seed=1)
+    # a field object that exists (and was used) before the change and keeps following its model
+    if cfg["gen"] == "RandMeth":
+        old_srf = gs.SRF(m, seed=seed, mode_no=cfg["mode_no"])
+    else:
+        old_srf = gs.SRF(m, generator="Fourier", period=cfg["period"][:d0], mode_no=cfg["mode_no"][:d0], seed=seed)
+    old_srf(np.random.RandomState(6).uniform(-3, 3, size=(d0, 3)))
+    if case.get("opt_from"):
+        for k_, v_ in cfg["opts"].items():
+            setattr(m, k_, v_)
+        m.var = cfg.get("var", 1.6)  # (TPL models keep the intensity, not the variance, when a shape parameter changes)
+    else:
+        m.dim = d
     if cfg.get("aniso") and d > 1:
         m.anis, m.angles = ANIS[d], ANG[d]
-    extra = {"cls": cfg["cls"], "dim": d, "dim_from": d0, "gen": cfg["gen"]}
+    extra = {"cls": cfg["cls"], "dim": d, "dim_from": d0, "gen": cfg["gen"], "opt_change": bool(case.get("opt_from"))}
     r.true("model with changed dimension == model built in that dimension", m == fresh, **extra)
     x = np.random.RandomState(5).uniform(-8, 8, size=(d, 9))
     kk = np.array([0.0, 0.2, 1.0, 3.0])
@@ -327,6 +337,13 @@ def case_dimchange(case):
         r.close("Fourier weights of the changed model == those of the fresh model", np.array(a.generator._spectrum_factor), np.array(b.generator._spectrum_factor), rtol=1e-10, atol=1e-14, **extra)
     fa, fb = np.array(a(x)), np.array(b(x))
     r.close("field of the changed model == field of the fresh model (same seed)", fa, fb, rtol=1e-9, atol=1e-10, **extra)
+    if d == d0 or cfg["gen"] == "RandMeth":
+        if cfg["gen"] == "Fourier":
+            fo = np.array(old_srf(x, seed=seed))
+        else:
+            fo = np.array(old_srf(x, seed=seed))
+        r.close("field object created before the change follows its model: field == fresh model's field (same seed)", fo, fb, rtol=1e-9, atol=1e-10, **extra)
+    r.true("changed model != model before the change", m != getattr(gs, cfg["cls"])(**kw), **extra)
     return r.done(outcome=[round(float(v), 8) for v in fb[:2]])
 
 
@@ -370,7 +387,7 @@ def run(chk):
         enc.append({"cfg": {"cls": cls, "dim": d, "opts": {}, "aniso": False, "gen": "RandMeth", "mode_no": 50, "sampling": "inversion", "len_scale": ls}, "seed0": s0, "nseeds": S})
         enc.append({"cfg": {"cls": cls, "dim": d, "opts": {}, "aniso": False, "gen": "RandMeth", "mode_no": 100, "sampling": "mcmc", "len_scale": ls}, "seed0": s0, "nseeds": S})
         stc.append({"cfg": {"cls": cls, "dim": d, "opts": {}, "aniso": True, "gen": "RandMeth", "mode_no": 16, "sampling": "inversion", "len_scale": ls}, "seed": s0})
-    for cls, d in (("Gaussian", 1), ("Gaussian", 2), ("Exponential", 2), ("Gaussian", 3), ("Matern", 2), ("Stable", 1), ("Spherical", 2), ("Exponential", 3)):
+    for cls, d in (("Gaussian", 1), ("Gaussian", 2), ("Exponential", 2), ("Gaussian", 3), ("Matern", 2), ("Stable", 1), ("Spherical", 2), ("Exponential", 3), ("HyperSpherical", 1), ("HyperSpherical", 2), ("HyperSpherical", 3), ("Integral", 2)):  # (heavy-tailed / oscillating covariances are left out: the periodised reference sums 7^d images)
         for aniso in (False, True):
             if aniso and d == 1:
                 continue
@@ -394,7 +411,14 @@ def run(chk):
                     continue
                 cfg = {"cls": cls, "dim": d, "opts": opts_for(cls, max(d, d0)), "aniso": d > 1 and d0 > d, "gen": gen, "mode_no": 16 if gen == "RandMeth" else [6, 4, 4], "period": [12.0, 9.0, 7.0], "len_scale": 1.5}
                 dcs.append({"cfg": cfg, "dim_from": d0, "seed": s0 + 3})
-    chk.run("dimchange", case_dimchange, dcs, rule="every (class, dim_from -> dim) with both dimensions valid (quick: neighbouring dimensions) x generator: the model is built and used in dim_from, its dim is set in place; spectrum, samples and field equal those of the model built in the target dimension with the same seed", chunk=2)
+    # optional argument changed in place (same dimension)
+    for cls, d in pairs():
+        if cls not in ALT_OPTS or (tier == "quick" and d != 2):
+            continue
+        for gen in ("RandMeth", "Fourier"):
+            cfg = {"cls": cls, "dim": d, "opts": opts_for(cls, d, True), "aniso": False, "gen": gen, "mode_no": 16 if gen == "RandMeth" else [6, 4, 4], "period": [12.0, 9.0, 7.0], "len_scale": 1.5}
+            dcs.append({"cfg": cfg, "dim_from": d, "seed": s0 + 3, "opt_from": opts_for(cls, d, False)})
+    chk.run("dimchange", case_dimchange, dcs, rule="every (class, dim_from -> dim) with both dimensions valid (quick: neighbouring dimensions) x generator: the model is built and used in dim_from, its dim is set in place; spectrum, samples and field equal those of the model built in the target dimension with the same seed; likewise for an optional argument changed in place, and for a field object that was created and used before the change", chunk=2)
     chk.run("structure", case_structure, stc, rule="every valid (class, dim) x {default, alternative shape parameter} x {isotropic, anisotropic+rotated} x seeds (+ nugget / mean configuration; forced inversion; Fourier generator): returned field == documented mode sum evaluated from the sample arrays with the oracle's coordinate transform", chunk=4)
     chk.run("ensemble", case_ensemble, enc, rule=f"complete seed window [{s0}, {s0 + S}) per configuration x mode numbers (100, 1000 = library default; thorough 100..1600) x sampling (auto / forced inversion / forced mcmc): laws of amplitudes and directions (6 sigma), radii under inversion (DKW at 1e-9), exact conditional covariance on the lag lattice: normalised error <= 3, unbiasedness, anisotropy scaling, ensemble mean and variance", chunk=1)
     nc = [{"cfg": {"cls": c, "dim": d, "opts": opts_for(c, d), "aniso": a, "gen": "RandMeth", "nugget": 0.4}, "seed0": s0, "nseeds": S} for c, d, a in (("Gaussian", 1, False), ("Exponential", 2, True), ("Gaussian", 3, True))]
